@@ -99,7 +99,7 @@ var contracts = map[string]*Contract{
 	"fmt.Fprintf":                    {Writes: []int{0}},
 	"io.WriteString":                 {Writes: []int{0}, Note: "w.Write([]byte(s)) unless w has WriteString"},
 	// --- std: encoding
-	"(*encoding/base64.Encoding).DecodeString":   {Fresh: true, Det: true},
+	"(*encoding/base64.Encoding).DecodeString":   {Fresh: true, Det: true, NonNil: []int{0}, Note: "the result slice is made by the call: non-nil even when empty"},
 	"(*encoding/base64.Encoding).EncodeToString": {Fresh: true, Det: true},
 	"encoding/hex.EncodeToString":                {Det: true},
 	"encoding/xml.Unmarshal":                     {Writes: []int{1}, Note: "error unless the root element has the tagged XMLName; absent optional elements leave pointer fields nil; xml:\"-\" fields never written"},
